@@ -36,6 +36,60 @@ def frame_bytes(i, npk, codec):
     return head + body
 
 
+class ScriptedLoss:
+    """First transmissions named by their ordinal are dropped; retransmissions are dropped until `until` first transmissions
+    went out and get through afterwards; nothing else is touched."""
+
+    forced = None
+    heal = 1e18
+
+    def __init__(self, latency, drop, until):
+        self.latency = latency
+        self.drop = set(drop)
+        self.until = until
+        self.n = 0
+        self.spec = {"scripted": {"drop_media_ordinals": sorted(drop), "retransmissions_dropped_until_media_ordinal": until}}
+
+    def decide(self, now, t0, ordinal, kind):
+        if "rtcp" in kind:
+            return [self.latency]
+        if "retransmission" in kind:
+            return [] if self.n <= self.until else [self.latency]
+        i = self.n
+        self.n += 1
+        return [] if i in self.drop else [self.latency]
+
+
+def gen_directed(rng):
+    """The history behind the known finding late-packet-restarts-jitter-buffer, spelled out: packet X (the last one of frame k) is
+    lost and so are its retransmissions; 128 packets later the buffer gives frame k up and catches up; one packet Y of the frame
+    then in flight is lost too, which makes the receiver ask for X and Y again; this time both get through - X arrives >= 100
+    behind the buffer's origin."""
+    from vt.core.net import PhasedModel
+
+    codec = rng.choice(["VP8", "H264"])
+    rtx = rng.random() < 0.5
+    n = 120
+    npk = 20
+    frames = [frame_bytes(i, npk, codec) for i in range(n)]
+    k = rng.randint(20, 70)
+    s0 = k * npk
+    x = s0 + rng.randint(npk - 4, npk - 1)
+    y = s0 + 129
+    interval = 1 / 30
+    total = n * interval
+    lat = rng.choice([0.002, 0.005])
+    wrap = rng.random() < 0.35
+    seq_origin = (65536 - rng.randint(1, 600)) if wrap else rng.randrange(32768)
+    rtp_model = ScriptedLoss(lat, {x, y}, y)
+    rtcp_model = PhasedModel([], latency=lat)
+    rtcp_model.phases = []
+    return dict(codec=codec, rtx=rtx, frames=frames, seq_origin=seq_origin, ts_origin=rng.getrandbits(32), interval=interval,
+                t1=0.0, t2=total, total=total, rtp_model=rtp_model, rtcp_model=rtcp_model, wrap=wrap,
+                excused={k},  # the script withholds the retransmissions of X until the buffer gave frame k up
+                specs={"directed": rtp_model.spec["scripted"], "frame_packets": npk, "k": k})
+
+
 def gen_case(rng):
     from vt.core.net import FaultModel, PhasedModel
 
@@ -70,12 +124,34 @@ def run_case(index, rng, tier):
     from vt.rigs.media import PairRig
 
     out = Batch("C11", "c11", checked_counter="frames_checked")
-    c = gen_case(rng)
+    directed = index % 48 == 7
+    c = gen_directed(rng) if directed else gen_case(rng)
     relay = index % 9 == 8
     desc = {"codec": c["codec"], "rtx": c["rtx"], "frames": len(c["frames"]), "seq_origin": c["seq_origin"], "ts_origin": c["ts_origin"],
             "specs": c["specs"], "relay": relay, "phases": [round(c["t1"], 2), round(c["t2"], 2), round(c["total"], 2)]}
     rig = PairRig(rng, c["frames"], codec=c["codec"], rtx=c["rtx"], seq_origin=c["seq_origin"], ts_origin=c["ts_origin"],
                   spec_rtp=c["rtp_model"], spec_rtcp=c["rtcp_model"], interval=c["interval"], relay=relay)
+    # monitor on the real jitter buffer: a packet the buffer places >= 100 behind its origin makes it start over at that
+    # old sequence number (the RFC 3550 "restart" heuristic without the two-sequential-packets confirmation)
+    jb = rig.receiver._RTCRtpReceiver__jitter_buffer
+    resets = []
+    state = {"last_idx": -1}
+    jb_add = jb.add
+
+    def add(packet):
+        before = jb._origin
+        held = {p.timestamp for p in jb._packets if p is not None} if before is not None else set()
+        r = jb_add(packet)
+        if before is not None and jb._origin == packet.sequence_number:
+            behind = (before - packet.sequence_number) & 0xFFFF
+            if 0 < behind < 0x8000:
+                # frames (by index) whose packets the restart threw away: they were received, so nobody asks for them again
+                cleared = sorted({((ts - c["ts_origin"]) & 0xFFFFFFFF) // 3000 for ts in held})
+                resets.append({"t": round(rig.now(), 3), "origin": before, "packet": packet.sequence_number, "behind": behind,
+                               "frames_up_to": state["last_idx"], "cleared_frames": cleared})
+        return r
+
+    jb.add = add
     try:
         by_data = {d: i for i, d in enumerate(c["frames"])}
         # H.264: the depayloader always emits 4-byte start codes, which is what the frames carry
@@ -114,12 +190,23 @@ def run_case(index, rng, tier):
                                  f"nor the tail of one (previous frame {last_idx})", d)
                         continue
                 pli_seen = len(rig.plis)
-                if idx in seen:
-                    out.fail("frame-duplicated", f"frame {idx} handed to the decoder twice", d)
-                elif idx < last_idx:
-                    out.fail("frame-out-of-order", f"frame {idx} handed to the decoder after frame {last_idx}", d)
+                # known finding: the replay that follows a restart triggered by a late packet >= 100 behind (the unchanged
+                # constant) can only concern frames that had already passed when the restart happened
+                late = [r for r in resets if r["behind"] >= 100 and idx <= r["frames_up_to"]]
+                if idx in seen or idx < last_idx:
+                    how = "twice" if idx in seen else f"after frame {last_idx}"
+                    if late:
+                        out.counters["late_packet_restarts"] += 1
+                        out.fail("late-packet-restarts-jitter-buffer", f"frame {idx} handed to the decoder {how}: the packet with sequence number "
+                                 f"{late[-1]['packet']} arrived {late[-1]['behind']} behind the jitter buffer's origin, which made the buffer "
+                                 f"start over there and replay what it still received of the old frames", d | {"restart": late[-1]})
+                    elif idx in seen:
+                        out.fail("frame-duplicated", f"frame {idx} handed to the decoder twice", d | {"restarts": resets[-3:]})
+                    else:
+                        out.fail("frame-out-of-order", f"frame {idx} handed to the decoder after frame {last_idx}", d | {"restarts": resets[-3:]})
                 seen.add(idx)
                 last_idx = max(last_idx, idx)
+                state["last_idx"] = last_idx
                 if name != c["codec"]:
                     out.fail("frame-wrong-codec", f"frame handed over as {name}", d)
         # NACK sanity
@@ -153,7 +240,19 @@ def run_case(index, rng, tier):
         if not c["rtx"] and rig.wire.get("rtx_packets"):
             out.fail("rtx-without-negotiation", "RTX packets on the wire although RTX was not negotiated", desc)
         sent_rec = [i for i, ts_ in rig.sent_frames.items() if ts_ >= c["t1"] + 0.5 and i < len(c["frames"]) - 2]
-        missing = [i for i in sent_rec if i not in seen]
+        missing = [i for i in sent_rec if i not in seen and i not in c.get("excused", ())]
+        thrown = {i for r in resets if r["behind"] >= 100 for i in r["cleared_frames"]}
+        by_restart = [i for i in missing if i in thrown]
+        missing = [i for i in missing if i not in thrown]
+        if by_restart:
+            r0 = [r for r in resets if r["behind"] >= 100][0]
+            out.counters["late_packet_restarts"] += 1
+            out.fail("late-packet-restarts-jitter-buffer", f"frames {by_restart[:6]} never reached the decoder although every packet of them "
+                     f"reached the receiver: the retransmission of sequence number {r0['packet']} arrived {r0['behind']} behind the jitter "
+                     f"buffer's origin, which made the buffer start over there and throw away what it held", desc | {"restart": r0})
+        if directed:
+            out.counters["directed_histories"] += 1
+            out.counters["directed_restarts_observed"] += 1 if any(r["behind"] >= 100 for r in resets) else 0
         if missing:
             out.fail("frame-never-delivered", f"{len(missing)} frames sent while losses are recoverable never reached the decoder: {missing[:8]} "
                      f"(lost packets in that phase: {len(lost_rec)}, NACKs: {len(rig.nacks)}, retransmissions: {len(rig.rtx_sent)})", desc)
